@@ -5,7 +5,7 @@ use itertools::Itertools;
 
 use crate as pdf;
 use crate::error::*;
-use crate::object::{Object, Resolve, Stream};
+use crate::object::{Object, FromDict, RcRef, Resolve, Stream};
 use crate::primitive::{Primitive, Dictionary};
 use std::convert::{TryFrom, TryInto};
 use std::io::{Read, Write};
@@ -76,10 +76,28 @@ pub struct CCITTFaxDecodeParams {
     pub damaged_rows_before_error: u32,
 }
 
-#[derive(Object, ObjectWrite, Debug, Clone, DataSize, DeepClone)]
+#[derive(ObjectWrite, Debug, Clone, DataSize, DeepClone)]
 pub struct JBIG2DecodeParams {
     #[pdf(key="JBIG2Globals")]
     pub globals: Option<Stream<()>>
+}
+// The globals stream is read through `Resolve::get`: a stream that names itself as its globals
+// (directly or through other streams) then ends in a "Recursive reference" error, not in unbounded recursion.
+#[derive(Object)]
+struct JBIG2DecodeParamsRef {
+    #[pdf(key="JBIG2Globals")]
+    globals: Option<RcRef<Stream<()>>>
+}
+impl FromDict for JBIG2DecodeParams {
+    fn from_dict(dict: Dictionary, resolve: &impl Resolve) -> Result<Self> {
+        let params = JBIG2DecodeParamsRef::from_dict(dict, resolve)?;
+        Ok(JBIG2DecodeParams { globals: params.globals.map(|s| (*s).clone()) })
+    }
+}
+impl Object for JBIG2DecodeParams {
+    fn from_primitive(p: Primitive, resolve: &impl Resolve) -> Result<Self> {
+        Self::from_dict(Dictionary::from_primitive(p, resolve)?, resolve)
+    }
 }
 #[derive(Debug, Clone, DataSize, DeepClone)]
 pub enum StreamFilter {
